@@ -498,3 +498,6 @@ PROP_ASSUMES.update({
 ASSUMPTIONS['A-rcptr'] = 'Weak::as_ptr of a dead Rc allocation kept alive by a Weak never equals Rc::as_ptr of a live Rc (the crate states the same assumption)'
 PROP_ASSUMES['C14'].insert(0, 'A-rcptr')
 _k('K.weak.api', 'k_weak_api', ['C05', 'C07', 'C19'], 'GcWeak::upgrade / is_dropped / is_dead / resurrect and Gc::is_dead map exactly to the Context functions: results per (phase, colour, live), frame, revived object Gray and queued')
+_k('K.collect.btreeset_binaryheap', 'k_collect_btreeset_binaryheap', ['C16'], 'BTreeSet and BinaryHeap elements (an Ord element type that holds a pointer)', complete='bounded: <= 2 elements')
+_k('K.collect.btreemap_keys', 'k_collect_btreemap_keys', ['C16'], 'BTreeMap: key AND value reported', complete='bounded: 1 entry')
+_k('K.collect.hashbrown_set_keys', 'k_collect_hashbrown_set_keys', ['C16'], 'hashbrown::HashMap keys and hashbrown::HashSet elements (trivial hasher)', complete='bounded: 1 entry', features='hashbrown', tier='thorough')
